@@ -4,7 +4,7 @@ open Util
 open Base
 
 let items_s it = cat "," (L.map (fun (k, v) -> hx k ^ "=" ^ hx v) it)
-let doc_s t = cat ";" (L.map items_s (Deb822Parse.doc_items t))
+let doc_s t = cat "" (L.map (fun p -> "[" ^ items_s p ^ "]") (Deb822Parse.doc_items t))
 
 (* init:  T:<hex text> (from_str_relaxed) | F:<ldoc> (FromIterator of paragraphs built from pairs) | N (Deb822::new) *)
 let init_tree (s : string) : Deb822Lex.kind elem res =
@@ -16,6 +16,9 @@ let init_tree (s : string) : Deb822Lex.kind elem res =
     Ok (Deb822Edit.deb822_of_paragraphs
           (L.map Deb822Edit.paragraph_of_pairs (S_lossy.parse_ldoc (S.sub s 2 (S.length s - 2)))))
   else failwith "bad init"
+
+(* the text of every paragraph (Paragraph::to_string), '.'-terminated so that empty texts stay visible *)
+let ptexts t = cat "" (L.map (fun p -> hx (text p) ^ ".") (Deb822Parse.paragraphs t))
 
 let npara t = L.length (Deb822Parse.paragraphs t)
 
@@ -46,10 +49,10 @@ let deb822_edit (fs : string list) : string =
     let ops = L.filter (fun x -> x <> "" && x <> "-") (S.split_on_char ' ' (L.nth fs 1)) in
     let (t, outs) = L.fold_left (fun (t, acc) op ->
         let (t', note) = apply_op t op in
-        (t', (Printf.sprintf "%s%s~%s" note (hx (text t')) (doc_s t')) :: acc)) (t0, []) ops in
+        (t', (Printf.sprintf "%s%s~%s~%s" note (hx (text t')) (doc_s t') (ptexts t')) :: acc)) (t0, []) ops in
     let final = text t in
     let reread = res_str (fun t' -> "OK:" ^ doc_s t') (Deb822Parse.from_str final) in
-    whole_hang [reread] (Printf.sprintf "init=%s~%s|steps=%s|reread=%s" (hx (text t0)) (doc_s t0) (cat "/" (L.rev outs)) reread)
+    whole_hang [reread] (Printf.sprintf "init=%s~%s~%s|steps=%s|reread=%s" (hx (text t0)) (doc_s t0) (ptexts t0) (cat "/" (L.rev outs)) reread)
 
 let () = register "deb822-edit" deb822_edit
 let () = register "deb822-edit-any" deb822_edit
